@@ -45,6 +45,20 @@ func (x *Run) callValue(fr *Frame, st *State, fv Val, cc *ssa.CallCommon, args [
 			return x.builtin(fr, st, b, cc, args, site)
 		}
 	}
+	if fv.Clo == nil && strings.HasPrefix(fv.Origin, "extfn:") {
+		x.mu.Lock()
+		x.opaque["external:function value returned by "+strings.TrimPrefix(fv.Origin, "extfn:")] = true
+		x.mu.Unlock()
+		var rt *types.Tuple
+		if cc != nil {
+			rt = cc.Signature().Results()
+		}
+		r := x.extResults(st, rt)
+		// named like a closure of the library function ("f$fn"), so that event
+		// patterns for f itself do not match it
+		st.events = append(st.events, Event{Name: "call:" + strings.TrimPrefix(fv.Origin, "extfn:") + "$fn", Args: args, Ret: r})
+		return single(st, r)
+	}
 	if fv.Clo == nil && fv.Origin != "" {
 		if sf := x.spec.fieldFns[fv.Origin]; sf != nil {
 			st.events = append(st.events, Event{Name: "call:fieldfn:" + fv.Origin, Args: args})
@@ -404,6 +418,19 @@ func (x *Run) opaqueExternal(fr *Frame, st *State, fn *ssa.Function, args []Val,
 		}
 	}
 	ret := x.extResults(st, fn.Signature.Results())
+	// function values handed out by library code (context.CancelFunc, ...) are
+	// library code themselves
+	markExt := func(v *Val) {
+		if v.Ty != nil {
+			if _, ok := types.Unalias(v.Ty).Underlying().(*types.Signature); ok {
+				v.Origin = "extfn:" + x.fnShort(fn)
+			}
+		}
+	}
+	markExt(&ret)
+	for i := range ret.Tup {
+		markExt(&ret.Tup[i])
+	}
 	st.events = append(st.events, Event{Name: "call:" + fn.String(), Args: args, Ret: ret})
 	return single(st, ret)
 }
